@@ -1509,6 +1509,11 @@ class ExplicitTag(StandardEncodeMixin, StandardDecodeMixin, Type):
         self.inner = inner
 
     def set_default(self, value):
+        # The inner type may be shared with other members referring
+        # to the same type.
+        if not isinstance(self.inner, Recursive):
+            self.inner = copy(self.inner)
+
         self.inner.set_default(value)
 
     def get_default(self):
